@@ -11,7 +11,7 @@ STATEFUL = True
 RULE = ('Hypothesis RuleBasedStateMachine: the initial rule draws a model (2-5 attributes, sizes 1-3, C01-style clique '
         'shapes, potentials N(0,1)*scale with scale in {0,1,5,30,600} and optional -inf (krondot only when the summed magnitude is <=300), total incl. != 1, elimination-order mode); then up to 14 '
         'steps of project(ordered subset, list|tuple, incl. () and full permutations) / calculate_many_marginals / krondot '
-        '/ datavector / cache / uncache / save+load / relayout (parameter tables re-stored with permuted axes) / synthetic_data / scribbling on a returned answer. After every step '
+        '/ datavector / cache / uncache / save+load / relayout (parameter tables re-stored with permuted axes) / belief propagation on other parameters / synthetic_data / scribbling on a returned answer. After every step '
         'the answer must equal the brute-force marginal in the requested axis order. The executed rule list is the '
         'replayable case. Non-trivial = the history has an out-of-clique query spanning >=2 maximal cliques and a '
         'cache-state change; distinct by sha1 of the history.')
@@ -137,6 +137,12 @@ def apply_op(state, op, out):
         state.mbi.GraphicalModel.save(m, path)
         state.model = state.mbi.GraphicalModel.load(path)
         state.flags.add('save_load')
+    elif k == 'bp_other':
+        # belief propagation is a function of its argument: running it on other parameters (as the estimators do with
+        # candidate points) must leave every later answer of the model unchanged
+        other = state.mbi.CliqueVector({cl: m.potentials[cl] * op['scale'] + op['shift'] for cl in m.potentials})
+        m.belief_propagation(other)
+        state.flags.add('bp_other')
     elif k == 'relayout':
         # store each parameter table with its axes in another order (Factors are addressed by attribute name, so this
         # changes nothing about the model); what a caller assembling potentials from own tables ends up with
@@ -252,6 +258,10 @@ def machine(tier, record, timeup):
         @rule()
         def save_load(self):
             self._do({'op': 'save_load'})
+
+        @rule(scale=st.sampled_from([0.0, 0.5, 2.0]), shift=st.sampled_from([0.0, -3.0, 40.0]))
+        def bp_other(self, scale, shift):
+            self._do({'op': 'bp_other', 'scale': scale, 'shift': shift})
 
         @rule(seed=st.integers(0, 2**31 - 1))
         def relayout(self, seed):
